@@ -937,7 +937,9 @@ func (w *bscWorld) afterRecv(tx *bscTx, ok bool, log string, pre, post map[strin
 			w.rec.Violate("C01", "double_accept", "bsc", "packet %d accepted twice", tx.pkt.seq)
 		}
 		tx.pkt.recvOK = true
-		packetReadback(w.rec, w.host, w.name, tx.pkt.seq)
+		if tx.pkt.ack == nil {
+			packetReadback(w.rec, w.host, w.name, tx.pkt.seq)
+		}
 		if !want {
 			key := "proof"
 			if !heightOK {
